@@ -400,4 +400,657 @@ Section DbProofs.
     assert (Kk : kp kf = [u; c; gid]) by (apply bk_kp; [auto|discriminate]).
     destruct n as [id subs rv l|g0]; cbn; auto. rewrite Kk in B. cbn in B. lia.
   Qed.
+
+  (* ================================================================ removal *)
+  Notation nsubs := (node_subs G).
+  Fixpoint prefb (p l : list pystr) : bool :=
+    match p, l with
+    | [], _ => true
+    | x :: p', y :: l' => str_eqb x y && prefb p' l'
+    | _ :: _, [] => false
+    end.
+  Lemma prefb_spec p : forall l, prefb p l = true <-> exists q, l = p ++ q.
+  Proof.
+    induction p as [|x p IH]; intros l; cbn.
+    - split; eauto.
+    - destruct l as [|y l]; [split; [discriminate|intros [q Hq]; discriminate]|].
+      rewrite andb_true_iff, IH. split.
+      + intros [E [q ->]]. apply str_eqb_eq in E. subst. eauto.
+      + intros [q Hq]. inversion Hq; subst. split; [apply str_eqb_refl|eauto].
+  Qed.
+  (* k lies in the subtree of a: its path extends a's *)
+  Definition extb (a k : pystr) : bool := prefb (kp a) (kp k).
+  Lemma extb_refl a : extb a a = true.
+  Proof. apply prefb_spec. exists []. now rewrite app_nil_r. Qed.
+  Lemma extb_trans a b c : extb a b = true -> extb b c = true -> extb a c = true.
+  Proof.
+    unfold extb. rewrite !prefb_spec. intros [q1 H1] [q2 H2]. exists (q1 ++ q2). rewrite H2, H1. now rewrite <- app_assoc.
+  Qed.
+  Lemma split_cc_ne a b s : split_cc a b s <> [].
+  Proof.
+    induction s as [|c r IH]; cbn [split_cc]; [discriminate|]. destruct r as [|d r']; [discriminate|].
+    destruct ((c =? a)%N && (d =? b)%N); [discriminate|]. unfold cons_hd. destruct (split_cc a b (d :: r')); discriminate.
+  Qed.
+  Lemma kp_ne k : kp k <> [].
+  Proof. apply split_cc_ne. Qed.
+
+  Definition canon (k : pystr) : Prop := branch_key (kp k) = Ok k.
+  Lemma canon_inj k k' : canon k -> canon k' -> kp k = kp k' -> k = k'.
+  Proof. unfold canon. intros H1 H2 E. rewrite E in H1. congruence. Qed.
+  Lemma bk_canon p k : branch_key p = Ok k -> p <> [] -> canon k.
+  Proof. intros H N. unfold canon. now rewrite (bk_kp _ _ H N). Qed.
+  Lemma has_key_assoc k (d : db) : has_key k d = true -> exists n, assoc k d = Some n.
+  Proof. unfold has_key. destruct (assoc k d); eauto; discriminate. Qed.
+
+  (* the part of the invariant that survives while a subtree is being taken out *)
+  Definition wk (d : db) : Prop :=
+    NoDup (keys d) /\
+    (forall k n, assoc k d = Some n -> canon k /\ forall s, In s (nsubs n) -> child_of s k) /\
+    (forall k p x, has_key k d = true -> kp k = p ++ [x] -> p <> [] ->
+       exists pk n, branch_key p = Ok pk /\ assoc pk d = Some n /\ In k (nsubs n)).
+  Lemma wf_wk d : wf d -> wk d.
+  Proof.
+    intros (W1&W2&W3). split; auto. split.
+    - intros k n H. destruct (W2 _ _ H) as (A&B). split; auto. destruct n as [id subs r l|g]; cbn; [|intros s []].
+      intros s Hs. destruct B as (_&_&B). now apply B.
+    - intros k p x Hh Hp Hne. destruct (W3 _ _ _ Hh Hp Hne) as (pk&id&subs&r&l&A&B&C). exists pk, (NInfo id subs r l). auto.
+  Qed.
+
+  (* every ancestor of a stored node is stored *)
+  Lemma anc d : wk d -> forall q k p, has_key k d = true -> kp k = p ++ q -> p <> [] ->
+     exists pk, branch_key p = Ok pk /\ has_key pk d = true.
+  Proof.
+    intros (W1&W2&W3). induction q as [|x q IH] using rev_ind; intros k p Hh Hp Hne.
+    - rewrite app_nil_r in Hp. destruct (has_key_assoc _ _ Hh) as [n Hn]. destruct (W2 _ _ Hn) as (C&_).
+      exists k. split; auto. unfold canon in C. now rewrite Hp in C.
+    - rewrite app_assoc in Hp.
+      assert (Hne' : p ++ q <> []) by (destruct p; [congruence|discriminate]).
+      destruct (W3 k (p ++ q) x Hh Hp Hne') as (pk&n&A&B&C).
+      apply (IH pk p); auto. { unfold has_key. now rewrite B. } now apply bk_kp.
+  Qed.
+  (* a stored node strictly below a is below one of a's listed subordinates *)
+  Lemma child_listed d a n k x q : wk d -> assoc a d = Some n -> has_key k d = true -> kp k = kp a ++ x :: q ->
+     exists s, In s (nsubs n) /\ extb s k = true.
+  Proof.
+    intros W Ha Hh Hp. pose proof W as (W1&W2&W3). destruct (W2 _ _ Ha) as (Ca&_).
+    assert (Hp' : kp k = (kp a ++ [x]) ++ q) by (now rewrite <- app_assoc).
+    assert (Hne : kp a ++ [x] <> []) by (destruct (kp a); discriminate).
+    destruct (anc d W q k (kp a ++ [x]) Hh Hp' Hne) as (ps&Hps&Hhs).
+    assert (Kps : kp ps = kp a ++ [x]) by (now apply bk_kp).
+    destruct (W3 ps (kp a) x Hhs Kps (kp_ne a)) as (pk&n'&A&B&C).
+    unfold canon in Ca. rewrite Ca in A. inversion A; subst pk. rewrite Ha in B. inversion B; subst n'.
+    exists ps. split; auto. apply prefb_spec. exists q. now rewrite Kps.
+  Qed.
+
+  (* d' is d without the nodes selected by R *)
+  Definition removed (R : pystr -> bool) (d d' : db) : Prop := forall k, assoc k d' = if R k then None else assoc k d.
+  Definition up_closed (R : pystr -> bool) : Prop := forall k k', R k = true -> extb k k' = true -> R k' = true.
+  Lemma wk_removed R d d' : wk d -> NoDup (keys d') -> removed R d d' -> up_closed R -> wk d'.
+  Proof.
+    intros (W1&W2&W3) N Hr Hu. split; auto. split.
+    - intros k n H. rewrite Hr in H. destruct (R k); [discriminate|]. now apply W2.
+    - intros k p x Hh Hp Hne. unfold has_key in Hh. rewrite Hr in Hh. destruct (R k) eqn:Rk; [discriminate|].
+      destruct (W3 k p x Hh Hp Hne) as (pk&n&A&B&C). exists pk, n. repeat split; auto.
+      rewrite Hr. destruct (R pk) eqn:Rp; auto. exfalso.
+      assert (E : extb pk k = true). { apply prefb_spec. exists [x]. rewrite Hp. f_equal. symmetry. now apply bk_kp. }
+      rewrite (Hu _ _ Rp E) in Rk. discriminate.
+  Qed.
+
+  Definition go_dst (f : nat) := fix go (subs : list pystr) (d : db) : res db :=
+     match subs with [] => Ok d | s :: r => d1 <- delete_sub_tree G f s d ;; go r d1 end.
+  Lemma dst_unfold f key d : delete_sub_tree G (S f) key d =
+     match assoc key d with None => Err KeyError | Some n => d' <- go_dst f (nsubs n) d ;; Ok (adel key d') end.
+  Proof. reflexivity. Qed.
+  Definition dst_ok (f : nat) : Prop := forall key d d',
+     wk d -> delete_sub_tree G f key d = Ok d' -> NoDup (keys d') /\ removed (extb key) d d'.
+
+  Lemma go_spec f : dst_ok f -> forall subs d d', wk d -> go_dst f subs d = Ok d' ->
+      NoDup (keys d') /\ removed (fun k => existsb (fun s => extb s k) subs) d d'.
+  Proof.
+    intros Hf. induction subs as [|s rest IH]; intros d d' W H; cbn [go_dst] in H.
+    - inversion H; subst. split; [apply W|]. intros k. reflexivity.
+    - destruct (delete_sub_tree G f s d) as [d1| |] eqn:E; cbn [bind] in H; try discriminate.
+      destruct (Hf _ _ _ W E) as (N1&R1).
+      assert (W1 : wk d1). { eapply wk_removed; eauto. intros k k' A B. eapply extb_trans; eauto. }
+      destruct (IH _ _ W1 H) as (N2&R2). split; auto.
+      intros k. rewrite R2, R1. cbn [existsb]. destruct (extb s k); cbn; [destruct (existsb _ rest); reflexivity|reflexivity].
+  Qed.
+
+  Lemma assoc_adel_eq k (d : db) k' : NoDup (keys d) -> assoc k' (adel k d) = if str_eqb k' k then None else assoc k' d.
+  Proof.
+    intros N. destruct (str_eqb k' k) eqn:E.
+    - apply str_eqb_eq in E. subst. now apply assoc_adel_same.
+    - apply str_eqb_neq in E. apply assoc_adel_other. congruence.
+  Qed.
+
+  (* removing a node after its listed subordinates' subtrees removes exactly its subtree *)
+  Lemma del_node_spec f key n d dg : dst_ok f -> wk d -> assoc key d = Some n -> go_dst f (nsubs n) d = Ok dg ->
+     NoDup (keys (adel key dg)) /\ removed (extb key) d (adel key dg).
+  Proof.
+    intros Hf W Hk Hg. destruct (go_spec f Hf _ _ _ W Hg) as (N&R). split; [now apply nodup_adel|].
+    pose proof W as (W1&W2&W3). destruct (W2 _ _ Hk) as (Ck&Hch).
+    intros k. rewrite assoc_adel_eq by auto. destruct (str_eqb k key) eqn:E.
+    - apply str_eqb_eq in E. subst. now rewrite extb_refl.
+    - rewrite R. destruct (existsb (fun s => extb s k) (nsubs n)) eqn:Ex.
+      + apply existsb_exists in Ex as (s&Hs&Es). assert (extb key k = true) as ->; auto.
+        eapply extb_trans; [|exact Es]. destruct (Hch _ Hs) as [x Hx]. apply prefb_spec. exists [x]. exact Hx.
+      + destruct (extb key k) eqn:Ek; auto. destruct (assoc k d) as [nk|] eqn:Hak; auto. exfalso.
+        apply prefb_spec in Ek as [q Hq]. destruct q as [|x q].
+        * rewrite app_nil_r in Hq. destruct (W2 _ _ Hak) as (Ck'&_). apply str_eqb_neq in E. apply E. now apply canon_inj.
+        * assert (Hh : has_key k d = true) by (unfold has_key; now rewrite Hak).
+          destruct (child_listed d key n k x q W Hk Hh Hq) as (s&Hs&Es).
+          assert (existsb (fun s => extb s k) (nsubs n) = true) by (apply existsb_exists; eauto). congruence.
+  Qed.
+  Lemma dst_spec f : dst_ok f.
+  Proof.
+    induction f as [|f IH]; intros key d d' W H; [cbn in H; discriminate|].
+    rewrite dst_unfold in H. destruct (assoc key d) as [n|] eqn:Hk; [|discriminate].
+    destruct (go_dst f (nsubs n) d) as [dg| |] eqn:Hg; cbn [bind] in H; try discriminate.
+    inversion H; subst. eapply del_node_spec; eauto.
+  Qed.
+
+  (* ---------------------------------------------------------------- the invariant with one hole:
+     h is not stored, nothing below h is stored, and h is the only subordinate that may dangle *)
+  Definition node_okx (h : pystr) (d : db) (k : pystr) (n : node) : Prop :=
+    canon k /\
+    match n with
+    | NGrant _ => length (kp k) = 3%nat
+    | NInfo _ subs _ _ => (length (kp k) <= 2)%nat /\ NoDup subs /\
+                          forall s, In s subs -> child_of s k /\ (has_key s d = true \/ s = h)
+    end.
+  Definition wfd (h : pystr) (d : db) : Prop :=
+    NoDup (keys d) /\
+    (forall k n, assoc k d = Some n -> node_okx h d k n) /\
+    (forall k p x, has_key k d = true -> kp k = p ++ [x] -> p <> [] ->
+       exists pk id subs r l, branch_key p = Ok pk /\ assoc pk d = Some (NInfo id subs r l) /\ In k subs) /\
+    canon h /\ (forall k, has_key k d = true -> extb h k = false).
+
+  Lemma wfd_wk h d : wfd h d -> wk d.
+  Proof.
+    intros (W1&W2&W3&_). split; auto. split.
+    - intros k n H. destruct (W2 _ _ H) as (A&B). split; auto. destruct n as [id subs r l|g]; cbn; [|intros s []].
+      intros s Hs. destruct B as (_&_&B). now apply B.
+    - intros k p x Hh Hp Hne. destruct (W3 _ _ _ Hh Hp Hne) as (pk&id&subs&r&l&A&B&C). exists pk, (NInfo id subs r l). auto.
+  Qed.
+  Lemma wfd_not_stored h d : wfd h d -> has_key h d = false.
+  Proof.
+    intros (_&_&_&_&W5). destruct (has_key h d) eqn:E; auto. specialize (W5 _ E). rewrite extb_refl in W5. discriminate.
+  Qed.
+
+  Lemma app_snoc_split {A} (q : list A) : q = [] \/ exists q' y, q = q' ++ [y].
+  Proof. destruct q as [|a q] using rev_ind; [now left|right; eauto]. Qed.
+
+  (* taking a whole stored subtree out leaves exactly one hole *)
+  Lemma wf_removed_wfd h d d' : wf d -> has_key h d = true -> NoDup (keys d') -> removed (extb h) d d' -> wfd h d'.
+  Proof.
+    intros W Hh N Hr. pose proof W as (W1&W2&W3).
+    destruct (has_key_assoc _ _ Hh) as [nh Hnh]. destruct (W2 _ _ Hnh) as (Ch&_).
+    assert (HK : forall k, has_key k d' = true -> extb h k = false /\ has_key k d = true).
+    { intros k H. unfold has_key in H. rewrite Hr in H. destruct (extb h k); [discriminate|]. auto. }
+    split; auto. split; [|split; [|split; auto]].
+    - intros k n H. rewrite Hr in H. destruct (extb h k) eqn:Ek; [discriminate|].
+      destruct (W2 _ _ H) as (A&B). split; auto. destruct n as [id subs r l|g]; auto.
+      destruct B as (B1&B2&B3). repeat split; auto; try (now apply B3).
+      destruct (B3 _ H0) as ([x Hx]&Hs). unfold has_key. rewrite Hr. destruct (extb h s) eqn:Es; [|left; exact Hs]. right.
+      apply prefb_spec in Es as [q Hq]. destruct (app_snoc_split q) as [->|(q'&y&->)].
+      + rewrite app_nil_r in Hq. destruct (has_key_assoc _ _ Hs) as [ns Hns]. destruct (W2 _ _ Hns) as (Cs&_). now apply canon_inj.
+      + exfalso. rewrite Hx, app_assoc in Hq. apply app_inj_tail in Hq as (Hq&_).
+        assert (extb h k = true) by (apply prefb_spec; eauto). congruence.
+    - intros k p x Hk Hp Hne. destruct (HK _ Hk) as (Ek&Hkd).
+      destruct (W3 _ _ _ Hkd Hp Hne) as (pk&id&subs&r&l&A&B&C). exists pk, id, subs, r, l. repeat split; auto.
+      rewrite Hr. destruct (extb h pk) eqn:Ep; auto. exfalso.
+      assert (E : extb pk k = true). { apply prefb_spec. exists [x]. rewrite Hp. f_equal. symmetry. now apply bk_kp. }
+      rewrite (extb_trans _ _ _ Ep E) in Ek. discriminate.
+    - intros k Hk. now destruct (HK _ Hk).
+  Qed.
+
+  (* closing the hole: nobody lists h any more *)
+  Lemma wfd_wf h d : wfd h d -> (forall k id subs r l, assoc k d = Some (NInfo id subs r l) -> ~ In h subs) -> wf d.
+  Proof.
+    intros (W1&W2&W3&W4&W5) Hn. split; auto. split; auto.
+    intros k n H. destruct (W2 _ _ H) as (A&B). split; auto. destruct n as [id subs r l|g]; auto.
+    destruct B as (B1&B2&B3). repeat split; auto; try (now apply B3).
+    destruct (B3 _ H0) as (_&[Hs| ->]); auto. exfalso. eapply Hn; eauto.
+  Qed.
+  (* whoever lists h is h's parent *)
+  Lemma lister_is_parent h d k id subs r l pk x :
+    wfd h d -> assoc k d = Some (NInfo id subs r l) -> In h subs -> canon pk -> kp h = kp pk ++ [x] -> k = pk.
+  Proof.
+    intros (W1&W2&_) Hk Hi Cp Hx. destruct (W2 _ _ Hk) as (Ck&_&_&B). destruct (B _ Hi) as ([y Hy]&_).
+    rewrite Hx in Hy. apply app_inj_tail in Hy as (Hy&_). apply canon_inj; auto.
+  Qed.
+  Lemma wfd_root h d : wfd h d -> length (kp h) = 1%nat -> wf d.
+  Proof.
+    intros W L. apply (wfd_wf h); auto. intros k id subs r l Hk Hi.
+    destruct W as (_&W2&_). destruct (W2 _ _ Hk) as (_&_&_&B). destruct (B _ Hi) as ([y Hy]&_).
+    rewrite Hy, app_length in L. cbn in L. pose proof (kp_ne k). destruct (kp k); [congruence|cbn in L; lia].
+  Qed.
+  Lemma wfd_unlisted h d pk x : wfd h d -> canon pk -> kp h = kp pk ++ [x] ->
+    (forall id subs r l, assoc pk d = Some (NInfo id subs r l) -> ~ In h subs) -> wf d.
+  Proof.
+    intros W Cp Hx Hn. apply (wfd_wf h); auto. intros k id subs r l Hk Hi.
+    assert (k = pk) by (eapply lister_is_parent; eauto). subst. eapply Hn; eauto.
+  Qed.
+  Lemma wf_wfd_missing h d : wf d -> canon h -> has_key h d = false -> wfd h d.
+  Proof.
+    intros W Ch Hh. pose proof W as (W1&W2&W3). split; auto. split; [|split; [|split]]; auto.
+    - intros k n H. destruct (W2 _ _ H) as (A&B). split; auto. destruct n as [id subs r l|g]; auto.
+      destruct B as (B1&B2&B3). repeat split; auto; try (now apply B3). left. now apply B3.
+    - intros k Hk. destruct (extb h k) eqn:E; auto. exfalso. apply prefb_spec in E as [q Hq].
+      destruct (anc d (wf_wk d W) q k (kp h) Hk Hq (kp_ne h)) as (pk&A&B). unfold canon in Ch. rewrite Ch in A.
+      inversion A; subst. congruence.
+  Qed.
+
+  Notation drop h subs := (List.filter (fun x => negb (str_eqb x h)) subs).
+  Lemma in_drop h subs s : In s (drop h subs) <-> In s subs /\ s <> h.
+  Proof.
+    rewrite filter_In. split; intros [A B]; split; auto.
+    - apply negb_true_iff, str_eqb_neq in B. exact B.
+    - apply negb_true_iff, str_eqb_neq. exact B.
+  Qed.
+
+  (* the parent forgets h and keeps other subordinates *)
+  Lemma wfd_filter h d pk id subs r l :
+    wfd h d -> assoc pk d = Some (NInfo id subs r l) -> In h subs -> wf (aset pk (NInfo id (drop h subs) r l) d).
+  Proof.
+    intros W Hp Hi. pose proof (wfd_not_stored _ _ W) as Hns. pose proof W as (W1&W2&W3&W4&W5).
+    destruct (W2 _ _ Hp) as (Cp&Lp&Np&Bp). destruct (Bp _ Hi) as ([x Hx]&_).
+    split; [now apply nodup_aset|]. split.
+    - intros k n Hk. rewrite assoc_aset_eq in Hk. destruct (str_eqb k pk) eqn:E.
+      + apply str_eqb_eq in E. subst k. inversion Hk; subst n. split; auto. repeat split; auto.
+        * now apply NoDup_filter.
+        * apply in_drop in H as (H&_). now apply Bp.
+        * apply in_drop in H as (H&Hne). destruct (Bp _ H) as (_&[Hs|Hs]); [|contradiction]. now apply has_key_mono.
+      + destruct (W2 _ _ Hk) as (A&B). split; auto. destruct n as [id' subs' r' l'|g]; auto.
+        destruct B as (B1&B2&B3). repeat split; auto; try (now apply B3).
+        destruct (B3 _ H) as (_&[Hs| ->]); [now apply has_key_mono|]. exfalso.
+        assert (k = pk) by (eapply lister_is_parent; eauto). subst. rewrite str_eqb_refl in E. discriminate.
+    - intros k p y Hk Hkp Hne.
+      assert (Hkd : has_key k d = true).
+      { rewrite has_key_aset in Hk. destruct (str_eqb k pk) eqn:E; auto. apply str_eqb_eq in E. subst. unfold has_key. now rewrite Hp. }
+      destruct (W3 _ _ _ Hkd Hkp Hne) as (pk'&id'&subs'&r'&l'&A&B&C).
+      destruct (str_eqb pk' pk) eqn:E.
+      + apply str_eqb_eq in E. subst pk'. rewrite Hp in B. inversion B; subst.
+        exists pk, id', (drop h subs'), r', l'. repeat split; auto; [apply assoc_aset_same|].
+        apply in_drop. split; auto. intros ->. congruence.
+      + exists pk', id', subs', r', l'. repeat split; auto. rewrite assoc_aset_eq, E. exact B.
+  Qed.
+
+  (* the parent had no other subordinate: it goes too and becomes the hole *)
+  Lemma wfd_up h d pk id subs r l :
+    wfd h d -> assoc pk d = Some (NInfo id subs r l) -> In h subs -> drop h subs = [] -> wfd pk (adel pk d).
+  Proof.
+    intros W Hp Hi Hd. pose proof (wfd_not_stored _ _ W) as Hns. pose proof (wfd_wk _ _ W) as Wk. pose proof W as (W1&W2&W3&W4&W5).
+    destruct (W2 _ _ Hp) as (Cp&Lp&Np&Bp). destruct (Bp _ Hi) as ([x Hx]&_).
+    assert (Hall : forall s, In s subs -> s = h).
+    { intros s Hs. destruct (str_eqb s h) eqn:E; [now apply str_eqb_eq|]. exfalso.
+      assert (In s (drop h subs)) by (apply in_drop; split; auto; now apply str_eqb_neq). rewrite Hd in H. destruct H. }
+    assert (Hbelow : forall k, has_key k d = true -> k <> pk -> extb pk k = false).
+    { intros k Hk Hne. destruct (extb pk k) eqn:E; auto. exfalso. apply prefb_spec in E as [q Hq]. destruct q as [|y q].
+      - rewrite app_nil_r in Hq. destruct (has_key_assoc _ _ Hk) as [nk Hnk]. destruct (W2 _ _ Hnk) as (Ck&_). apply Hne. now apply canon_inj.
+      - destruct (child_listed d pk _ k y q Wk Hp Hk Hq) as (s&Hs&Es). cbn in Hs. rewrite (Hall _ Hs) in Es.
+        rewrite (W5 _ Hk) in Es. discriminate. }
+    assert (A1 : forall k, assoc k (adel pk d) = if str_eqb k pk then None else assoc k d) by (intros; now apply assoc_adel_eq).
+    assert (HK : forall k, has_key k (adel pk d) = true -> k <> pk /\ has_key k d = true).
+    { intros k H. unfold has_key in H. rewrite A1 in H. destruct (str_eqb k pk) eqn:E; [discriminate|]. apply str_eqb_neq in E. auto. }
+    split; [now apply nodup_adel|]. split; [|split; [|split; auto]].
+    - intros k n Hk. rewrite A1 in Hk. destruct (str_eqb k pk) eqn:E; [discriminate|]. apply str_eqb_neq in E.
+      destruct (W2 _ _ Hk) as (A&B). split; auto. destruct n as [id' subs' r' l'|g]; auto.
+      destruct B as (B1&B2&B3). repeat split; auto; try (now apply B3).
+      destruct (B3 _ H) as (_&[Hs| ->]).
+      + destruct (str_eqb s pk) eqn:E2; [right; now apply str_eqb_eq|]. left. unfold has_key. rewrite A1, E2. exact Hs.
+      + exfalso. apply E. eapply lister_is_parent; eauto.
+    - intros k p y Hk Hkp Hne. destruct (HK _ Hk) as (Hkne&Hkd).
+      destruct (W3 _ _ _ Hkd Hkp Hne) as (pk'&id'&subs'&r'&l'&A&B&C).
+      exists pk', id', subs', r', l'. repeat split; auto. rewrite A1. destruct (str_eqb pk' pk) eqn:E; auto. exfalso.
+      apply str_eqb_eq in E. subst pk'. rewrite Hp in B. inversion B; subst. rewrite (Hall _ C) in Hkd. congruence.
+    - intros k Hk. destruct (HK _ Hk) as (Hkne&Hkd). now apply Hbelow.
+  Qed.
+
+  (* the chain of ancestors of h, nearest first, as the delete loop walks it *)
+  Fixpoint ups_ok (h : pystr) (up : list pystr) : Prop :=
+    match up with
+    | [] => length (kp h) = 1%nat
+    | pk :: up' => canon pk /\ (exists x, kp h = kp pk ++ [x]) /\ ups_ok pk up'
+    end.
+  Lemma delete_up_some_wf fuel up : forall h d d', wfd h d -> ups_ok h up -> delete_up G fuel up (Some h) d = Ok d' -> wf d'.
+  Proof.
+    induction up as [|pk up IH]; intros h d d' W U H; cbn [delete_up] in H.
+    - inversion H; subst. eapply wfd_root; eauto.
+    - destruct U as (Cpk&[x Hx]&U').
+      destruct (assoc pk d) as [n|] eqn:Hp.
+      + destruct n as [id subs r l|g]; [|discriminate].
+        destruct (str_in h subs) eqn:Hin.
+        * apply str_in_In in Hin. cbv zeta in H. destruct (drop h subs) as [|s0 rest0] eqn:Hf.
+          -- eapply IH; [|exact U'|exact H]. eapply wfd_up; eauto.
+          -- inversion H; subst. rewrite <- Hf. eapply wfd_filter; eauto.
+        * inversion H; subst. eapply wfd_unlisted; eauto. intros id' subs' r' l' E. rewrite Hp in E. inversion E; subst.
+          intros Hi. apply str_in_In in Hi. congruence.
+      + eapply IH; [|exact U'|exact H]. apply wf_wfd_missing; auto.
+        * eapply wfd_unlisted; eauto. intros id' subs' r' l' E. congruence.
+        * unfold has_key. now rewrite Hp.
+  Qed.
+  Lemma delete_up_none_wf fuel key up d d' :
+    wf d -> ups_ok key up -> delete_up G fuel (key :: up) None d = Ok d' -> wf d'.
+  Proof.
+    intros W U H. cbn [delete_up] in H. destruct (assoc key d) as [n|] eqn:Hk; [|inversion H; subst; auto].
+    change (d1 <- go_dst fuel (nsubs n) d ;; delete_up G fuel up (Some key) (adel key d1) = Ok d') in H.
+    destruct (go_dst fuel (nsubs n) d) as [dg| |] eqn:Hg; cbn [bind] in H; try discriminate.
+    destruct (del_node_spec fuel key n d dg (dst_spec fuel) (wf_wk _ W) Hk Hg) as (N&R).
+    eapply delete_up_some_wf; [|exact U|exact H]. eapply wf_removed_wfd; eauto. unfold has_key. now rewrite Hk.
+  Qed.
+
+  (* the keys the loop walks: built from the path's prefixes, longest first *)
+  Fixpoint pchain (ps : list (list pystr)) : Prop :=
+    match ps with
+    | [] => True
+    | p :: ps' => p <> [] /\ match ps' with [] => length p = 1%nat | q :: _ => exists x, p = q ++ [x] end /\ pchain ps'
+    end.
+  Lemma prefixes_rev_chain rest : forall pre acc,
+    pchain acc -> match acc with [] => pre = [] | q :: _ => q = pre end -> pchain (prefixes_rev pre rest acc).
+  Proof.
+    induction rest as [|x rest IH]; intros pre acc P Hh; cbn [prefixes_rev]; auto.
+    apply IH; auto. cbn [pchain]. split; [destruct pre; discriminate|]. split; auto.
+    destruct acc as [|q acc']; [subst; reflexivity|subst; eauto].
+  Qed.
+  Lemma keys_of_chain ps : forall ks, pchain ps -> keys_of ps = Ok ks ->
+    match ks with [] => ps = [] | k :: up => canon k /\ ups_ok k up end.
+  Proof.
+    induction ps as [|p ps IH]; intros ks P H; cbn [keys_of] in H.
+    - inversion H; subst. reflexivity.
+    - destruct (branch_key p) as [k| |] eqn:Ek; cbn [bind] in H; try discriminate.
+      destruct (keys_of ps) as [up| |] eqn:Eu; cbn [bind] in H; try discriminate. inversion H; subst ks.
+      destruct P as (Pne&Pl&P'). assert (Kk : kp k = p) by (now apply bk_kp).
+      split; [eapply bk_canon; eauto|]. specialize (IH up P' eq_refl). destruct up as [|pk up'].
+      + subst ps. cbn. now rewrite Kk.
+      + destruct IH as (Cpk&U). destruct ps as [|q ps']; [cbn in Eu; discriminate|]. destruct Pl as [x ->].
+        cbn [keys_of] in Eu. destruct (branch_key q) as [kq| |] eqn:Eq; cbn [bind] in Eu; try discriminate.
+        destruct (keys_of ps'); cbn [bind] in Eu; try discriminate. inversion Eu; subst kq.
+        destruct P' as (Qne&_). cbn [ups_ok]. split; auto. split; auto. exists x. rewrite Kk. f_equal. symmetry. now apply bk_kp.
+  Qed.
+
+  Lemma db_delete_wf path d d' : wf d -> db_delete G path d = Ok d' -> wf d'.
+  Proof.
+    intros W H. unfold db_delete in H. destruct path as [|p0 rest]; [discriminate|].
+    destruct (branch_key [p0]) as [k0| |] eqn:E0; cbn [bind] in H; try discriminate.
+    destruct (has_key k0 d) eqn:Hk; cbn [negb] in H; [|inversion H; subst; auto].
+    assert (K0 : kp k0 = [p0]) by (apply bk_kp; [auto|discriminate]).
+    destruct rest as [|p1 rest].
+    - destruct (dst_spec _ _ _ _ (wf_wk _ W) H) as (N&R).
+      eapply wfd_root; [eapply wf_removed_wfd; eauto|]. now rewrite K0.
+    - destruct (keys_of (prefixes_rev [] (p0 :: p1 :: rest) [])) as [ks| |] eqn:Ek; cbn [bind] in H; try discriminate.
+      assert (P : pchain (prefixes_rev [] (p0 :: p1 :: rest) [])) by (apply prefixes_rev_chain; cbn; auto).
+      pose proof (keys_of_chain _ _ P Ek) as C. destruct ks as [|key up].
+      + cbn in H. inversion H; subst; auto.
+      + destruct C as (_&U). eapply delete_up_none_wf; eauto.
+  Qed.
+
+  (* ================================================================ every reachable store is consistent *)
+  Lemma step_wf d o : wf d -> wf (fst (step G g_revoke d o)).
+  Proof.
+    intros W. destruct o as [u c gid g|p l|p|]; cbn [step].
+    - destruct (add_grant G [u; c] gid g d) as [d1 r1] eqn:E. cbn. eapply add_grant_wf; eauto.
+    - destruct (revoke_sub_tree G g_revoke p l d) as [d1| |] eqn:E; cbn; auto. eapply revoke_sub_tree_wf; eauto.
+    - destruct (db_delete G p d) as [d1| |] eqn:E; cbn; auto. eapply db_delete_wf; eauto.
+    - cbn. apply wf_empty.
+  Qed.
+  Theorem run_wf ops : forall d, wf d -> wf (run G g_revoke ops d).
+  Proof.
+    induction ops as [|o ops IH]; intros d W; cbn [run fold_left]; auto. apply IH. now apply step_wf.
+  Qed.
+
+  (* ================================================================ exact removal *)
+  Lemma not_stored_below d key k : wf d -> canon key -> assoc key d = None -> extb key k = true -> assoc k d = None.
+  Proof.
+    intros W Ck Hk E. destruct (assoc k d) as [n|] eqn:Hn; auto. exfalso.
+    assert (Hh : has_key k d = true) by (unfold has_key; now rewrite Hn).
+    apply prefb_spec in E as [q Hq]. destruct (anc d (wf_wk d W) q k (kp key) Hh Hq (kp_ne key)) as (pk&A&B).
+    unfold canon in Ck. rewrite Ck in A. inversion A; subst. unfold has_key in B. rewrite Hk in B. discriminate.
+  Qed.
+  Lemma extb_len a b : extb a b = true -> (length (kp a) <= length (kp b))%nat.
+  Proof. intros H. apply prefb_spec in H as [q ->]. rewrite app_length. lia. Qed.
+  Lemma ups_ok_strict up : forall h k, ups_ok h up -> In k up -> extb k h = true /\ (length (kp k) < length (kp h))%nat.
+  Proof.
+    induction up as [|pk up IH]; intros h k U Hi; [destruct Hi|]. destruct U as (Cpk&[x Hx]&U').
+    assert (E : extb pk h = true) by (apply prefb_spec; eauto).
+    assert (L : (length (kp pk) < length (kp h))%nat) by (rewrite Hx, app_length; cbn; lia).
+    destruct Hi as [<-|Hi]; [auto|]. destruct (IH _ _ U' Hi) as (E'&L'). split; [eapply extb_trans; eauto|lia].
+  Qed.
+  Definition strict_anc (k leaf : pystr) : bool := extb k leaf && negb (str_eqb k leaf).
+  Lemma strict_anc_ups h up k : ups_ok h up -> strict_anc k h = false -> ~ In k up.
+  Proof.
+    intros U S Hi. destruct (ups_ok_strict _ _ _ U Hi) as (E&L). unfold strict_anc in S. rewrite E in S. cbn in S.
+    apply negb_false_iff, str_eqb_eq in S. subst. lia.
+  Qed.
+
+  Lemma delete_up_some_frame fuel up : forall h d d', delete_up G fuel up (Some h) d = Ok d' ->
+    forall k, ~ In k up -> assoc k d' = assoc k d.
+  Proof.
+    induction up as [|pk up IH]; intros h d d' H k Hn; cbn [delete_up] in H.
+    - inversion H; subst; auto.
+    - assert (Nk : str_eqb k pk = false). { apply str_eqb_neq. intros ->. apply Hn. now left. }
+      assert (Hn' : ~ In k up) by (intros Hi; apply Hn; now right).
+      destruct (assoc pk d) as [n|] eqn:Hp.
+      + destruct n as [id subs r l|g]; [|discriminate].
+        destruct (str_in h subs); [|inversion H; subst; auto].
+        cbv zeta in H. destruct (drop h subs) as [|s0 rest0].
+        * rewrite (IH _ _ _ H k Hn'). apply assoc_adel_other. apply str_eqb_neq in Nk. congruence.
+        * inversion H; subst. now rewrite assoc_aset_eq, Nk.
+      + eapply IH; eauto.
+  Qed.
+  Lemma delete_up_none_exact fuel key up d d' : wf d -> canon key -> delete_up G fuel (key :: up) None d = Ok d' ->
+     forall k, ~ In k up -> assoc k d' = if extb key k then None else assoc k d.
+  Proof.
+    intros W Ck H k Hn. cbn [delete_up] in H. destruct (assoc key d) as [n|] eqn:Hk.
+    - change (d1 <- go_dst fuel (nsubs n) d ;; delete_up G fuel up (Some key) (adel key d1) = Ok d') in H.
+      destruct (go_dst fuel (nsubs n) d) as [dg| |] eqn:Hg; cbn [bind] in H; try discriminate.
+      destruct (del_node_spec fuel key n d dg (dst_spec fuel) (wf_wk _ W) Hk Hg) as (N&R).
+      rewrite (delete_up_some_frame _ _ _ _ _ H k Hn). apply R.
+    - inversion H; subst. destruct (extb key k) eqn:E; auto. eapply not_stored_below; eauto.
+  Qed.
+
+  Lemma prefixes_rev_head rest : forall pre acc, rest <> [] -> exists tl, prefixes_rev pre rest acc = (pre ++ rest) :: tl.
+  Proof.
+    induction rest as [|x rest IH]; intros pre acc Hne; [congruence|]. cbn [prefixes_rev]. destruct rest as [|y rest].
+    - cbn. eauto.
+    - destruct (IH (pre ++ [x]) ((pre ++ [x]) :: acc)) as [tl Ht]; [discriminate|]. exists tl. rewrite Ht. now rewrite <- app_assoc.
+  Qed.
+
+  (* Database.delete(path) removes the subtree of path's node, may only touch (shorten or remove) strict ancestors
+     of that node, and leaves every other node exactly as it was *)
+  Theorem db_delete_exact path leaf d d' : wf d -> branch_key path = Ok leaf -> db_delete G path d = Ok d' ->
+     forall k, strict_anc k leaf = false -> assoc k d' = if extb leaf k then None else assoc k d.
+  Proof.
+    intros W Hl H k Sk. unfold db_delete in H. destruct path as [|p0 rest]; [discriminate|].
+    assert (Cl : canon leaf) by (eapply bk_canon; eauto; discriminate).
+    assert (Kl : kp leaf = p0 :: rest) by (apply bk_kp; [auto|discriminate]).
+    destruct (branch_key [p0]) as [k0| |] eqn:E0; cbn [bind] in H; try discriminate.
+    assert (K0 : kp k0 = [p0]) by (apply bk_kp; [auto|discriminate]).
+    assert (C0 : canon k0) by (eapply bk_canon; eauto; discriminate).
+    assert (E0l : extb k0 leaf = true). { unfold extb. rewrite K0, Kl. cbn. now rewrite str_eqb_refl. }
+    destruct (has_key k0 d) eqn:Hk; cbn [negb] in H.
+    - destruct rest as [|p1 rest].
+      + rewrite E0 in Hl. inversion Hl; subst k0. destruct (dst_spec _ _ _ _ (wf_wk _ W) H) as (N&R). apply R.
+      + destruct (keys_of (prefixes_rev [] (p0 :: p1 :: rest) [])) as [ks| |] eqn:Ek; cbn [bind] in H; try discriminate.
+        assert (P : pchain (prefixes_rev [] (p0 :: p1 :: rest) [])) by (apply prefixes_rev_chain; cbn; auto).
+        pose proof (keys_of_chain _ _ P Ek) as C.
+        destruct (prefixes_rev_head (p0 :: p1 :: rest) [] []) as [tl Ht]; [discriminate|]. cbn [app] in Ht.
+        rewrite Ht in Ek. cbn [keys_of] in Ek. rewrite Hl in Ek. cbn [bind] in Ek.
+        destruct (keys_of tl) as [up| |]; cbn [bind] in Ek; try discriminate. inversion Ek; subst ks.
+        destruct C as (_&U). eapply delete_up_none_exact; eauto. eapply strict_anc_ups; eauto.
+    - inversion H; subst. destruct (extb leaf k) eqn:E; auto. eapply (not_stored_below d' k0); eauto.
+      + unfold has_key in Hk. destruct (assoc k0 d'); [discriminate|reflexivity].
+      + eapply extb_trans; eauto.
+  Qed.
+
+  (* ================================================================ frame: other users' branches *)
+  Definition rt (k : pystr) : pystr := hd [] (kp k).
+  Lemma rt_bk p k : branch_key p = Ok k -> rt k = hd [] p.
+  Proof.
+    intros H. destruct p as [|a p]; [cbn in H; inversion H; reflexivity|]. unfold rt. rewrite (bk_kp _ _ H); [reflexivity|discriminate].
+  Qed.
+  Lemma ext_rt a k : extb a k = true -> rt k = rt a.
+  Proof. unfold extb, rt. intros H. apply prefb_spec in H as [q ->]. pose proof (kp_ne a). destruct (kp a); [congruence|reflexivity]. Qed.
+
+  Lemma add_sub_frame sk key d d1 k : add_sub G sk key d = Ok d1 -> k <> sk -> assoc k d1 = assoc k d.
+  Proof.
+    unfold add_sub. destruct (assoc sk d) as [[id subs r l|g]|]; try discriminate.
+    destruct (str_in key subs); intros H N; inversion H; subst; auto.
+    rewrite assoc_aset_eq. destruct (str_eqb k sk) eqn:E; auto. apply str_eqb_eq in E. congruence.
+  Qed.
+  Lemma set_loop_frame u k : rt k <> u -> forall rest pre value sup d d' r,
+     hd [] (pre ++ rest) = u -> (forall sk, sup = Some sk -> rt sk = u) ->
+     set_loop G pre rest value sup d = (d', r) -> assoc k d' = assoc k d.
+  Proof.
+    intros Hk. induction rest as [|x rest IH]; intros pre value sup d d' r Hu Hs H; cbn [set_loop] in H.
+    - inversion H; subst; auto.
+    - cbv zeta in H. destruct (branch_key (pre ++ [x])) as [key| |] eqn:Ek; try (inversion H; subst; auto; fail).
+      assert (Rk : rt key = u). { rewrite (rt_bk _ _ Ek). rewrite <- Hu. destruct pre; reflexivity. }
+      destruct (match sup with Some sk => add_sub G sk key d | None => Ok d end) as [d1| |] eqn:Er; try (inversion H; subst; auto; fail).
+      assert (E1 : assoc k d1 = assoc k d).
+      { destruct sup as [sk|]; [|inversion Er; subst; auto]. eapply add_sub_frame; eauto. intros ->. apply Hk. now apply Hs. }
+      rewrite <- E1. eapply IH in H.
+      + rewrite H. rewrite assoc_aset_eq. destruct (str_eqb k key) eqn:E; auto. apply str_eqb_eq in E. subst. contradiction.
+      + rewrite <- app_assoc. exact Hu.
+      + intros sk Hsk. inversion Hsk; subst. exact Rk.
+  Qed.
+  Lemma setup_loop_frame u k : rt k <> u -> forall rest pre d d' r,
+     hd [] (pre ++ rest) = u -> setup_loop G pre rest d = (d', r) -> assoc k d' = assoc k d.
+  Proof.
+    intros Hk. induction rest as [|x rest IH]; intros pre d d' r Hu H; cbn [setup_loop] in H.
+    - inversion H; subst; auto.
+    - assert (Hu' : hd [] ((pre ++ [x]) ++ rest) = u) by (now rewrite <- app_assoc).
+      assert (Hu2 : hd [] ([] ++ (pre ++ [x])) = u) by (cbn; rewrite <- Hu; destruct pre; reflexivity).
+      destruct (db_get G (pre ++ [x]) d) as [n|e|]; [eapply IH; eauto| |inversion H; subst; auto].
+      destruct e; try (inversion H; subst; auto; fail).
+      destruct (db_set G (pre ++ [x]) (NInfo x [] false (length pre)) d) as [d1 r1] eqn:Es.
+      assert (E1 : assoc k d1 = assoc k d). { unfold db_set in Es. eapply set_loop_frame; eauto. intros sk Hsk; discriminate. }
+      destruct r1 as [[]| |]; try (inversion H; subst; auto; fail). rewrite <- E1. eapply IH; eauto.
+  Qed.
+  Lemma add_grant_frame u c gid g d d' r k : rt k <> u -> add_grant G [u; c] gid g d = (d', r) -> assoc k d' = assoc k d.
+  Proof.
+    intros Hk H. unfold add_grant, setup_branch in H. destruct (setup_loop G [] [u; c] d) as [d1 r1] eqn:E1.
+    assert (F1 : assoc k d1 = assoc k d) by (eapply (setup_loop_frame u k Hk [u; c] []); eauto).
+    destruct r1 as [[]| |]; try (inversion H; subst; auto; fail).
+    rewrite <- F1. unfold db_set in H. eapply (set_loop_frame u k Hk _ [] _ None); [ | |exact H]; [reflexivity|intros sk Hsk; discriminate].
+  Qed.
+
+  Lemma revoke_tree_frame fuel : forall key d d', wf d -> revoke_tree G g_revoke fuel key d = Ok d' ->
+     forall k, extb key k = false -> assoc k d' = assoc k d.
+  Proof.
+    induction fuel as [|f IH]; intros key d d' W H k Hk; cbn [revoke_tree] in H; [discriminate|].
+    assert (Nk : str_eqb k key = false).
+    { destruct (str_eqb k key) eqn:E; auto. apply str_eqb_eq in E. subst. rewrite extb_refl in Hk. discriminate. }
+    destruct (assoc key d) as [[id subs r l|g]|] eqn:Ek; try discriminate.
+    - assert (Hch : forall s, In s subs -> extb s k = false).
+      { intros s Hs. destruct W as (_&W2&_). destruct (W2 _ _ Ek) as (_&_&_&B). destruct (B _ Hs) as ([x Hx]&_).
+        destruct (extb s k) eqn:E; auto. assert (E2 : extb key s = true) by (apply prefb_spec; eauto).
+        rewrite (extb_trans _ _ _ E2 E) in Hk. discriminate. }
+      set (d1 := aset key (NInfo id subs true l) d) in *.
+      assert (W1 : wf d1) by (eapply wf_aset_same_subs; eauto; reflexivity).
+      assert (E1 : assoc k d1 = assoc k d) by (unfold d1; now rewrite assoc_aset_eq, Nk).
+      rewrite <- E1. clearbody d1. clear Ek W E1. revert Hch d1 d' W1 H. induction subs as [|s rest IHs]; intros Hch d1 d' W1 H.
+      + inversion H; subst; auto.
+      + destruct (revoke_tree G g_revoke f s d1) as [d2| |] eqn:E; cbn [bind] in H; try discriminate.
+        rewrite <- (IH _ _ _ W1 E k) by (apply Hch; now left).
+        eapply IHs; [intros s' Hs'; apply Hch; now right|eapply revoke_tree_wf; eauto|exact H].
+    - inversion H; subst. now rewrite assoc_aset_eq, Nk.
+  Qed.
+  Lemma revoke_sub_tree_frame path lvl d d' k : wf d -> revoke_sub_tree G g_revoke path lvl d = Ok d' ->
+     rt k <> hd [] path -> assoc k d' = assoc k d.
+  Proof.
+    unfold revoke_sub_tree. intros W H Hk. destruct lvl as [l|].
+    - destruct (Nat.ltb (length path) l); [discriminate|].
+      destruct (branch_key (firstn (S l) path)) as [key| |] eqn:Eb; cbn [bind] in H; try discriminate.
+      eapply revoke_tree_frame; eauto. destruct (extb key k) eqn:E; auto. exfalso. apply Hk.
+      rewrite (ext_rt _ _ E), (rt_bk _ _ Eb). destruct path; reflexivity.
+    - destruct (branch_key path) as [key| |] eqn:Eb; cbn [bind] in H; try discriminate.
+      eapply revoke_tree_frame; eauto. destruct (extb key k) eqn:E; auto. exfalso. apply Hk.
+      now rewrite (ext_rt _ _ E), (rt_bk _ _ Eb).
+  Qed.
+  Lemma db_delete_frame path d d' k : wf d -> db_delete G path d = Ok d' -> rt k <> hd [] path -> assoc k d' = assoc k d.
+  Proof.
+    intros W H Hk. destruct (branch_key path) as [leaf| |] eqn:El.
+    - assert (Rl : rt leaf = hd [] path) by (now apply rt_bk).
+      rewrite (db_delete_exact path leaf d d' W El H k).
+      + destruct (extb leaf k) eqn:E; auto. exfalso. apply Hk. now rewrite (ext_rt _ _ E).
+      + unfold strict_anc. destruct (extb k leaf) eqn:E; auto. exfalso. apply Hk. now rewrite <- (ext_rt _ _ E).
+    - (* the path has no key: nothing is changed before the refusal *)
+      unfold db_delete in H. destruct path as [|p0 rest]; [discriminate|].
+      destruct (branch_key [p0]) as [k0| |] eqn:E0; cbn [bind] in H; try discriminate.
+      destruct (has_key k0 d); cbn [negb] in H; [|inversion H; subst; auto].
+      destruct rest as [|p1 rest]; [congruence|].
+      destruct (prefixes_rev_head (p0 :: p1 :: rest) [] []) as [tl Ht]; [discriminate|]. cbn [app] in Ht.
+      rewrite Ht in H. cbn [keys_of] in H. rewrite El in H. cbn [bind] in H. discriminate.
+    - unfold db_delete in H. destruct path as [|p0 rest]; [discriminate|].
+      destruct (branch_key [p0]) as [k0| |] eqn:E0; cbn [bind] in H; try discriminate.
+      destruct (has_key k0 d); cbn [negb] in H; [|inversion H; subst; auto].
+      destruct rest as [|p1 rest]; [congruence|].
+      destruct (prefixes_rev_head (p0 :: p1 :: rest) [] []) as [tl Ht]; [discriminate|]. cbn [app] in Ht.
+      rewrite Ht in H. cbn [keys_of] in H. rewrite El in H. cbn [bind] in H. discriminate.
+  Qed.
+
+  Definition op_root (o : op G) : option pystr :=
+    match o with
+    | OAddGrant u _ _ _ => Some u
+    | ORevoke p _ => Some (hd [] p)
+    | ODelete p => Some (hd [] p)
+    | OFlush => None
+    end.
+  (* an operation on one user's branch leaves every node of every other user exactly as it was *)
+  Theorem step_frame d o u k : wf d -> op_root o = Some u -> rt k <> u ->
+    assoc k (fst (step G g_revoke d o)) = assoc k d.
+  Proof.
+    intros W Ho Hk. destruct o as [u' c gid g|p l|p|]; cbn [op_root] in Ho; inversion Ho; subst u; cbn [step].
+    - destruct (add_grant G [u'; c] gid g d) as [d1 r1] eqn:E. cbn. eapply add_grant_frame; eauto.
+    - destruct (revoke_sub_tree G g_revoke p l d) as [d1| |] eqn:E; cbn; auto. eapply revoke_sub_tree_frame; eauto.
+    - destruct (db_delete G p d) as [d1| |] eqn:E; cbn; auto. eapply db_delete_frame; eauto.
+  Qed.
+
+  (* any number of operations on other users' branches *)
+  Theorem run_frame ops : forall d k, wf d ->
+    Forall (fun o => exists u, op_root o = Some u /\ rt k <> u) ops -> assoc k (run G g_revoke ops d) = assoc k d.
+  Proof.
+    induction ops as [|o ops IH]; intros d k W F; cbn [run fold_left]; auto.
+    inversion F as [|? ? (u&Hu&Hk) F']; subst. change (assoc k (run G g_revoke ops (fst (step G g_revoke d o))) = assoc k d).
+    rewrite IH; auto; [eapply step_frame; eauto|now apply step_wf].
+  Qed.
+
+  (* what the invariant says, spelled out for the statement file *)
+  Lemma wf_reachable d : wf d -> forall k p x, has_key k d = true -> kp k = p ++ [x] -> p <> [] ->
+    exists pk id subs r l, branch_key p = Ok pk /\ assoc pk d = Some (NInfo id subs r l) /\ In k subs.
+  Proof. intros (_&_&W3). exact W3. Qed.
+  Lemma wf_subordinates_stored d : wf d -> forall k id subs r l s, assoc k d = Some (NInfo id subs r l) -> In s subs ->
+    has_key s d = true /\ exists x, kp s = kp k ++ [x].
+  Proof. intros (_&W2&_) k id subs r l s Hk Hs. destruct (W2 _ _ Hk) as (_&_&_&B). destruct (B _ Hs) as (A&C). split; auto. Qed.
+  Lemma wf_one_node_per_path d : wf d -> forall k k' n n', assoc k d = Some n -> assoc k' d = Some n' -> kp k = kp k' -> k = k'.
+  Proof. intros (_&W2&_) k k' n n' H H' E. destruct (W2 _ _ H) as (C&_). destruct (W2 _ _ H') as (C'&_). now apply canon_inj. Qed.
+
+  (* ---- the same, for every store reachable from the empty one ---- *)
+  Notation reach ops := (run G g_revoke ops []).
+  Lemma reach_wf ops : wf (reach ops).
+  Proof. apply run_wf, wf_empty. Qed.
+  Lemma reach_reachable ops k p x : has_key k (reach ops) = true -> kp k = p ++ [x] -> p <> [] ->
+    exists pk id subs r l, branch_key p = Ok pk /\ assoc pk (reach ops) = Some (NInfo id subs r l) /\ In k subs.
+  Proof. apply wf_reachable, reach_wf. Qed.
+  Lemma reach_no_dangling ops k id subs r l s : assoc k (reach ops) = Some (NInfo id subs r l) -> In s subs ->
+    has_key s (reach ops) = true /\ exists x, kp s = kp k ++ [x].
+  Proof. apply wf_subordinates_stored, reach_wf. Qed.
+  Lemma reach_one_node_per_path ops k k' n n' :
+    assoc k (reach ops) = Some n -> assoc k' (reach ops) = Some n' -> kp k = kp k' -> k = k'.
+  Proof. apply wf_one_node_per_path, reach_wf. Qed.
+  Lemma reach_delete_exact ops path leaf d' : branch_key path = Ok leaf -> db_delete G path (reach ops) = Ok d' ->
+    forall k, strict_anc k leaf = false -> assoc k d' = if extb leaf k then None else assoc k (reach ops).
+  Proof. apply db_delete_exact, reach_wf. Qed.
+  Lemma reach_delete_consistent ops path d' : db_delete G path (reach ops) = Ok d' -> wf d'.
+  Proof. apply db_delete_wf, reach_wf. Qed.
+  Lemma reach_frame ops ops' k : Forall (fun o => exists u, op_root o = Some u /\ rt k <> u) ops' ->
+    assoc k (run G g_revoke ops' (reach ops)) = assoc k (reach ops).
+  Proof. apply run_frame, reach_wf. Qed.
+  Lemma extb_spec a k : extb a k = true <-> exists q, kp k = kp a ++ q.
+  Proof. apply prefb_spec. Qed.
+  Lemma strict_anc_spec k leaf : strict_anc k leaf = true <-> (exists q, kp leaf = kp k ++ q) /\ k <> leaf.
+  Proof.
+    unfold strict_anc. rewrite andb_true_iff, extb_spec, negb_true_iff, str_eqb_neq. tauto.
+  Qed.
 End DbProofs.
